@@ -446,3 +446,8 @@ pub broadcast proof fn lemma_dispatch_prefix_auto(dl0: Seq<FrameS>, disp: Seq<Fr
 // everything a sequence of (stream id, chunk) items becomes on the write path, in order
 pub open spec fn psh_all(items: Seq<(u32, Seq<u8>)>) -> Seq<FrameS> decreases items.len()
 { if items.len() == 0 { Seq::empty() } else { psh_all(items.drop_last()) + psh_frames(items.last().0, items.last().1) } }
+
+// Lock coverage: the state that decides what goes on the wire next (the pending-frame buffer) must stay locked from the moment
+// the pending frames are taken out until they have been written; otherwise another task's frame can be written in between.
+// `held` is the rule-L ghost flag of that lock at the call site (0 = not held, 2 = held for writing).
+pub proof fn vx_needs_lock_still_held(held: int) requires held == 2 { }
